@@ -21,6 +21,15 @@ POINT_LEVELS = {
 ALTERNATIVES = {"bignKeyUnwrap": "wwEq("}   # x-only decompression: y^2 == x^3+ax+b recomputed and compared
 
 
+def header_matches(fs):
+    """the accepted comparison is the one the caller's `header` argument selects: a non-null header was compared
+    (memEq(header, ..) accepted); the all-zero test stands in only for header == 0"""
+    null = ("cmp", False, "header") in fs or ("cmp", True, "(header==0)") in fs
+    eq = any(x[0] == "T" and x[1].startswith("memEq(header,") for x in fs)
+    zero = any(x[0] == "T" and x[1].startswith("memIsZero(") for x in fs)
+    return zero if null else eq
+
+
 def run(tier, seed=0):
     res = Result("C02", "other", tier)
     prog = ir.Program("w64")
@@ -35,10 +44,15 @@ def run(tier, seed=0):
     vprules.check_must(prog, res, "R02.5-accept-only-verified", "bignIdVerify",
                        [("s1 < q", FACT("ltc", r"order$")), ("hash comparison beltHashStepV2", T("beltHashStepV2(")),
                         ("public key coordinates reduced (qrFrom x4)", lambda fs: sum(1 for x in fs if x[0] == "field") >= 4)])
+    ku = prog.funcs.get("bignKeyUnwrap")
+    if ku is None or not any(p["n"] == "header" for p in ku.params):
+        raise AnalysisBroken("bignKeyUnwrap has no `header` parameter any more: the header-comparison obligation must be re-anchored")
     vprules.check_must(prog, res, "R02.5-accept-only-verified", "bignKeyUnwrap",
                        [("token length test", CMP(False, r"len<")), ("x coordinate reduced (qrFrom)", T("qrFrom(")),
                         ("curve membership y^2 == x^3+ax+b (wwEq)", T("wwEq(")),
-                        ("header comparison", ANY(T("memEq("), T("memIsZero(")))])
+                        ("header comparison", ANY(T("memEq("), T("memIsZero("))),
+                        ("header comparison matches the header argument (memEq with a given header, memIsZero only "
+                         "when header == 0)", header_matches)])
     vprules.check_must(prog, res, "R02.5-accept-only-verified", "bignKeypairVal",
                        [("0 < d", FACT("nz", r".")), ("d < q", FACT("lt", r".")), ("Q == dG (memEq)", T("memEq("))])
     vprules.check_must(prog, res, "R02.5-accept-only-verified", "bignPubkeyVal",
